@@ -118,7 +118,7 @@ def hash_compress(prog, rec, tier):
         bad = []
         for i in range(nh):
             got = s.mem.get((OBJ, (hf, i)))
-            gid = I.wid(got) if got is not None else None
+            gid = I.wid(got, True) if got is not None else None
             if gid != want[i]:
                 v = compare_words(ws, gid, want[i]) if gid is not None else 'missing'
                 bad.append((i, v if isinstance(v, str) else 'differs: code %08x, standard %08x on a sample assignment' % (v[1], v[2])))
